@@ -1205,6 +1205,10 @@ impl Check for C42 {
         }
         let mut w = Walker { eng: Engine::new(ctx), rep, case_idx: 0, capped: false };
         for pass in &ps {
+            // development aid: `--opt only=<pass name>` restricts the run to one pass
+            if ctx.opt("only").map(|o| o != pass.name).unwrap_or(false) {
+                continue;
+            }
             for &var in &pass.vars {
                 let mut ops = vec![];
                 w.dfs(pass, var, &mut ops, &BTreeSet::new(), false);
